@@ -253,6 +253,11 @@ def gen_macro_cases(ctx, n, schemas):
               "replace": [["Veggie", {"type": {"segs": ["V"]}}], ["Fruit", {"type": {"segs": ["F"]}, "impls": [{"name": "Bogus"}, {"maybe": True, "name": "FromStr"}, {"name": "FromStr"}]}]]})
     M.append({"derives": [MACRO_DERIVES[2], MACRO_DERIVES[3]], "unknown": "Allow",
               "patch": [["Root0", {"rename": "TopLevel"}], ["Fruit", {"derives": [{"segs": ["PartialEq"]}]}], ["Veggie", {"rename": "Veg"}]]})
+    # a crate configured under its own hyphenated name, under each policy that treats an unconfigured crate differently
+    # (under Allow an entry that is silently lost goes unnoticed); "_schema": 0 = the document whose requirements are all `*`
+    M.append({"crates": [["my-crate", "1.2.3"], ["my_crate-2", "*"], ["x86_64", "1.0.0"]], "_schema": 0})
+    M.append({"unknown": "Generate", "crates": [["my-crate", "*"], ["my_crate-2", "2.0.0"], ["r2d2", "!"]], "_schema": 0})
+    M.append({"unknown": "Allow", "crates": [["my-crate", "!"], ["std", "!"], ["a", "!"]], "_schema": 0})
     while len(M) < n:
         o = {}
         if rng.random() < .7: o["derives"] = [rng.choice(MACRO_DERIVES) for _ in range(rng.choice([1, 2, 3]))]
@@ -280,7 +285,7 @@ def gen_macro_cases(ctx, n, schemas):
             o["convert"] = [["{\"type\":\"number\"}", {"type": {"segs": ["dec", "D"]}, "impls": impls}]]
         M.append(o)
     M = M[:n]
-    return [{"opts": o, "schema_idx": i % len(schemas)} for i, o in enumerate(M)]
+    return [{"opts": {k: v for k, v in o.items() if k != "_schema"}, "schema_idx": o.get("_schema", i % len(schemas))} for i, o in enumerate(M)]
 
 def macro_text(o, schema_file):
     """the import_types! invocation for abstract macro options"""
@@ -479,7 +484,7 @@ def run(ctx):
     ctx.log("cli cases=%d ok=%d outcome=%s" % (len(cases), n_ok, outs))
 
     # ---- 3. macro expansions
-    mcases = gen_macro_cases(ctx, 40 if thorough else 4, schemas)
+    mcases = gen_macro_cases(ctx, 40 if thorough else 10, schemas)
     mm = [json.dumps({"op": "macro", "opts": c["opts"]}) for c in mcases]
     mmodel = vlib.run_side("model", "c15", mm) if ctx.driver_ok else ["no-driver"] * len(mcases)
     blines = []; bidx = []
